@@ -40,6 +40,7 @@ func runC01(c *eng.Ctx) {
 	ruleRecoveredEntryIsTheLastAnswer(c)
 	c.Rule("R05.8", "K5")
 	ruleRebuildDoesNotBoundSizesBySegmentLimit(c)
+	ruleRecoveryCutsThePartialTail(c)
 	c.Rule("R05.1", "K2")
 	ruleLogThenIndex(c)
 	c.Rule("R05.3", "K2")
